@@ -25,6 +25,24 @@ Proof.
   - symmetry. apply str_eqb_neq. intros H. subst. rewrite str_eqb_refl in E. discriminate.
 Qed.
 
+Lemma memb_in : forall x l, memb x l = true <-> In x l.
+Proof.
+  intros x l. unfold memb. rewrite existsb_exists. split.
+  - intros [y [Hy E]]. apply list_eqb_N_eq in E. subst. exact Hy.
+  - intros H. exists x. split; [exact H|apply str_eqb_refl].
+Qed.
+Lemma memb_not_in : forall x l, memb x l = false <-> ~ In x l.
+Proof.
+  intros x l. rewrite <- memb_in. destruct (memb x l); split; intros; congruence.
+Qed.
+Lemma nodupb_iff : forall l, nodupb l = true <-> NoDup l.
+Proof.
+  induction l as [|x r IH]; simpl; split; intros H; try constructor; try reflexivity.
+  - apply andb_true_iff in H. destruct H as [H1 H2]. apply negb_true_iff in H1. apply memb_not_in. exact H1.
+  - apply andb_true_iff in H. apply IH. tauto.
+  - inversion H; subst. apply andb_true_iff. split; [apply negb_true_iff; apply memb_not_in; assumption|apply IH; assumption].
+Qed.
+
 Lemma orel_refl {A} (R : A -> A -> Prop) : (forall x, R x x) -> forall o, orel R o o.
 Proof. intros H [x|]; simpl; auto. Qed.
 Lemma orel_sym {A} (R : A -> A -> Prop) : (forall x y, R x y -> R y x) -> forall a b, orel R a b -> orel R b a.
@@ -199,6 +217,67 @@ Proof.
     + intros x [->|Hx]; [|auto]. intros E. apply Hna. rewrite E. apply in_map. eapply nth_error_In; eauto.
 Qed.
 
+Lemma in_insert_nth {A} k (d : A) r x : In x (insert_nth k d r) -> x = d \/ In x r.
+Proof.
+  revert k. induction r as [|y r IH]; intros k H.
+  - destruct k; simpl in H; destruct H as [H|[]]; auto.
+  - destruct k as [|k]; simpl in H.
+    + destruct H as [H|H]; auto.
+    + destruct H as [H|H]; [right; left; exact H|]. destruct (IH k H) as [E|E]; [auto|right; right; exact E].
+Qed.
+Lemma NoDup_map_insert_nth {A B} (f : A -> B) k d r :
+  NoDup (map f (d :: r)) -> NoDup (map f (insert_nth k d r)).
+Proof.
+  revert k. induction r as [|y r IH]; intros k H.
+  - destruct k; exact H.
+  - destruct k as [|k]; [exact H|]. simpl in *.
+    inversion H as [|? ? Hd H']; subst. inversion H' as [|? ? Hy H'']; subst.
+    constructor.
+    + intros HI. apply in_map_iff in HI. destruct HI as [x [Ex Hx]].
+      destruct (in_insert_nth _ _ _ _ Hx) as [->|Hr].
+      * apply Hd. left. congruence.
+      * apply Hy. rewrite <- Ex. apply in_map. exact Hr.
+    + apply IH. constructor; [|exact H'']. intros HI. apply Hd. right. exact HI.
+Qed.
+
+(** the pre-filter loop of LayerContents::load accepts exactly: distinct names, distinct
+    directories, public.default only in glyphs *)
+Definition reserved_ok (e : str * str) : Prop := fst e = DEFAULT_LAYER_NAME -> snd e = GLYPHS.
+Lemma lc_precheck_none : forall lc sn sd,
+  lc_precheck sn sd lc = None <->
+  (NoDup (map fst lc) /\ (forall n, In n (map fst lc) -> ~ In n sn)) /\
+  (NoDup (map snd lc) /\ (forall d, In d (map snd lc) -> ~ In d sd)) /\ Forall reserved_ok lc.
+Proof.
+  induction lc as [|e r IH]; intros sn sd; simpl.
+  - split; [intros _|reflexivity]. repeat split; try constructor; intros ? [].
+  - destruct (memb (fst e) sn) eqn:E1.
+    { split; [discriminate|]. intros [[_ H] _]. apply memb_in in E1. exfalso. apply (H (fst e)); auto. }
+    destruct (memb (snd e) sd) eqn:E2.
+    { split; [discriminate|]. intros [_ [[_ H] _]]. apply memb_in in E2. exfalso. apply (H (snd e)); auto. }
+    apply memb_not_in in E1. apply memb_not_in in E2.
+    destruct (str_eqb (fst e) DEFAULT_LAYER_NAME && negb (str_eqb (snd e) GLYPHS)) eqn:E3.
+    { split; [discriminate|]. intros [_ [_ H]]. inversion H as [|? ? Hr _]; subst.
+      apply andb_true_iff in E3. destruct E3 as [A B]. apply list_eqb_N_eq in A. apply negb_true_iff in B.
+      apply str_eqb_false in B. exfalso. apply B. apply Hr. exact A. }
+    rewrite IH. clear IH.
+    assert (Hres : reserved_ok e).
+    { intros A. apply andb_false_iff in E3. destruct E3 as [B|B].
+      - apply str_eqb_false in B. contradiction.
+      - apply negb_false_iff in B. apply list_eqb_N_eq in B. exact B. }
+    split.
+    + intros [[N1 D1] [[N2 D2] F]]. split; [|split].
+      * split; [constructor; [intros HI; apply (D1 _ HI); left; reflexivity|exact N1]|].
+        intros n [<-|HI]; [exact E1|]. intros Hn. apply (D1 n HI). right. exact Hn.
+      * split; [constructor; [intros HI; apply (D2 _ HI); left; reflexivity|exact N2]|].
+        intros n [<-|HI]; [exact E2|]. intros Hn. apply (D2 n HI). right. exact Hn.
+      * constructor; assumption.
+    + intros [[N1 D1] [[N2 D2] F]]. inversion N1; subst. inversion N2; subst. inversion F; subst.
+      split; [|split].
+      * split; [assumption|]. intros n HI [<-|Hn]; [contradiction|]. apply (D1 n); [right; exact HI|exact Hn].
+      * split; [assumption|]. intros n HI [<-|Hn]; [contradiction|]. apply (D2 n); [right; exact HI|exact Hn].
+      * assumption.
+Qed.
+
 (* ------------------------------------------------------------------------------------------ *)
 (** * Feature text *)
 
@@ -314,6 +393,17 @@ Proof.
   intros k d Hd k' v' H. rewrite (get_del S OK) in H. destruct (str_eqb k' k); [discriminate|].
   apply Hd. exact H.
 Qed.
+
+Lemma remove_key_absent : forall k d, d_get S k d = None -> remove_key S k d = d.
+Proof. intros k d H. unfold remove_key, d_mem. rewrite H. reflexivity. Qed.
+Lemma get_remove_key : forall k d, d_get S k (remove_key S k d) = None.
+Proof.
+  intros k d. unfold remove_key, d_mem. destruct (d_get S k d) eqn:E; simpl.
+  - rewrite (get_del S OK), str_eqb_refl. reflexivity.
+  - exact E.
+Qed.
+Lemma wf_dict_remove_key : forall k d, wf_dict S d -> wf_dict S (remove_key S k d).
+Proof. intros k d H. unfold remove_key. destruct (d_mem S k d); [apply wf_dict_del|]; exact H. Qed.
 
 (** ** object libs of the font-info guidelines *)
 Fixpoint olookup (k : str) (gs : list guide) : option dict :=
@@ -635,6 +725,9 @@ Proof.
   destruct (glyphs_rt o (l_glyphs l) HG ND) as [glifs [Hg1 Hg2]]. rewrite Hg1. simpl.
   eexists. split; [reflexivity|]. intros t Ht.
   unfold load_layer. simpl. rewrite Ht. simpl. rewrite Hc2.
+  assert (Hnd : nodupb (map snd (contents_of S l)) = true).
+  { apply nodupb_iff. unfold contents_of. rewrite map_map. exact ND. }
+  rewrite Hnd. cbn [negb].
   destruct (Hg2 (Build_ldir S (Some cc) lic glifs) eq_refl) as [gl' [Hm HF2]]. unfold contents_of. rewrite Hm. simpl.
   destruct lic as [lc|].
   - destruct Hl2 as [v [Hv1 Hv2]]. simpl. rewrite Hv1. simpl.
@@ -786,7 +879,7 @@ Lemma layers_loaded : forall c o (ls : list lay),
     forall t : tree, t_lcontents S t = Some lcc -> t_dirs S t = dirs ->
       exists ls', load_layers S t 3 = Ok ls' /\ Forall2 (layer_eq S) ls ls'.
 Proof.
-  intros c o ls [Hfirst [ND [HF Hwf]]].
+  intros c o ls [Hfirst [ND [HF [Hwf [NDn Hres]]]]].
   destruct ls as [|d r]; [tauto|]. destruct Hfirst as [Hd Hr].
   assert (Hwf' : wf (P_lc S) (lc_of S (spec_layer_order S c (d :: r)))).
   { apply (lc_wf S OK). apply (lc_wf S OK) in Hwf. unfold lc_of in *.
@@ -796,7 +889,13 @@ Proof.
   destruct (layers_rt c o (d :: r) HF ND) as [dirs [Hw Hl]].
   exists lcc, dirs. split; [exact H1|]. split; [exact Hw|]. intros t Ht1 Ht2.
   destruct (Hl t Ht2) as [ls' HB]. inversion HB as [|? d' ? r' Hdb Hrb]; subst.
-  unfold load_layers. rewrite Ht1, H2. simpl.
+  unfold load_layers. rewrite Ht1, H2. cbn [bind].
+  assert (Hpre : lc_precheck [] [] (lc_of S (spec_layer_order S c (d :: r))) = None).
+  { apply lc_precheck_none. unfold lc_of, spec_layer_order. rewrite !map_map. cbn [fst snd].
+    split; [split; [apply (NoDup_map_insert_nth l_name); exact NDn|intros ? _ []]|].
+    split; [split; [apply (NoDup_map_insert_nth l_dir); exact ND|intros ? _ []]|].
+    rewrite Forall_map. inversion Hres; subst. apply Forall_insert_nth; assumption. }
+  rewrite Hpre. unfold spec_layer_order.
   assert (Hm : mapM (load_layer S t) (lc_of S (insert_nth (c_default_pos c) d r)) =
                Ok (insert_nth (c_default_pos c) d' r')).
   { apply mapM_Forall2. unfold lc_of. apply Forall2_map_l.
@@ -839,14 +938,14 @@ Lemma load_v3_intro : forall (t : tree) mc m olib il og ok ls,
   load_opt S (P_kerning S) (t_kerning S t) 4 = Ok ok ->
   load_layers S t 3 = Ok ls ->
   load S t = Ok {| f_meta := {| m_creator := m_creator m; m_version := 3; m_minor := m_minor m |};
-                   f_info := fst il; f_lib := snd il;
+                   f_info := fst il; f_lib := remove_key S OBJ (snd il);
                    f_groups := dflt_opt (groups_dflt S) og; f_kerning := dflt_opt (kerning_dflt S) ok;
                    f_features := dflt_opt [] (t_features S t); f_layers := ls;
                    f_data := store_loaded (t_data S t); f_images := store_loaded (t_images S t) |}.
 Proof.
   intros t mc m olib il og ok ls Hm1 Hm2 Hv Hlib Hil Hg1 Hg2 Hk Hls.
   unfold load. rewrite Hm1, Hm2. cbv zeta. rewrite Hv, Hlib. cbn [bind].
-  unfold lib0_of in Hil. rewrite Hil. cbn [bind]. rewrite Hg1. cbn [bind].
+  unfold lib0_of in Hil. rewrite Hil. cbn [bind]. cbv zeta. rewrite Hg1. cbn [bind].
   assert (Hgc : match og with
                 | Some g => if groups_ok S g then Ok og else Err LInvalidGroups
                 | None => Ok None
@@ -908,7 +1007,11 @@ Proof.
   - (* equivalence *)
     unfold font_equiv. cbn [f_meta f_info f_lib f_groups f_kerning f_features f_layers f_data f_images
                              m_version m_minor].
-    split; [exact Hv|]. split; [reflexivity|]. split; [exact Hieq|]. split; [exact Hleq|].
+    split; [exact Hv|]. split; [reflexivity|]. split; [exact Hieq|].
+    split.
+    { rewrite remove_key_absent; [exact Hleq|].
+      apply (deq_get S OK) with (k := OBJ) in Hleq. rewrite Hobj in Hleq.
+      apply (orel_none_l (veq S)) in Hleq. exact Hleq. }
     split; [exact Hgl3|]. split; [exact Hkl2|].
     split.
     { subst t. cbn [t_features]. destruct (f_features S f) as [|x r] eqn:Ef; cbn [is_nil andb].
@@ -1025,7 +1128,7 @@ Lemma load_elim : forall (t : tree) (f : font),
     f_meta S f = {| m_creator := m_creator m; m_version := 3; m_minor := m_minor m |} /\
     f_layers S f = ls /\ f_data S f = store_loaded (t_data S t) /\ f_images S f = store_loaded (t_images S t) /\
     (m_version m = 3 ->
-     f_info S f = fst il /\ f_lib S f = snd il /\ f_groups S f = dflt_opt (groups_dflt S) og /\
+     f_info S f = fst il /\ f_lib S f = remove_key S OBJ (snd il) /\ f_groups S f = dflt_opt (groups_dflt S) og /\
      f_kerning S f = dflt_opt (kerning_dflt S) ok /\ f_features S f = dflt_opt [] (t_features S t)).
 Proof.
   intros t f H. unfold load in H.
@@ -1119,6 +1222,7 @@ Proof.
   destruct (alookup (snd e) (t_dirs S t)) as [d|]; [|discriminate]. cbn [obind].
   destruct (ld_contents S d) as [cc|]; [|discriminate]. cbn [obind].
   destruct (dec (P_contents S) cc) as [cl|]; [|discriminate]. cbn [obind].
+  destruct (nodupb (map snd cl)); cbn [negb] in H; [|discriminate].
   destruct (mapM (load_glyph S d) cl) as [gl| |] eqn:Eg; simpl in H; try discriminate.
   rewrite (load_glyphs_spec _ _ _ Eg). cbn [obind].
   destruct (load_opt S (P_li S) (ld_info S d) 8) as [li| |] eqn:El; simpl in H; try discriminate.
@@ -1140,6 +1244,7 @@ Proof.
   intros t ls H Hdf. unfold load_layers in H.
   destruct (t_lcontents S t) as [lcc|] eqn:E1; [|discriminate].
   destruct (dec (P_lc S) lcc) as [lc|] eqn:E2; [|discriminate]. cbn [bind] in H.
+  destruct (lc_precheck [] [] lc); [discriminate|].
   destruct (mapM (load_layer S t) lc) as [ls0| |] eqn:Em; simpl in H; try discriminate.
   destruct (find_idx (is_default_dir S) ls0) as [i|] eqn:Ei; [|discriminate]. inversion H; subst ls.
   exists lcc, lc, ls0. split; [reflexivity|]. split; [exact E2|]. split.
@@ -1162,12 +1267,11 @@ Qed.
 Theorem readers_agree : forall (t : tree) (f : font) mc m,
   load S t = Ok f ->
   t_meta S t = Some mc -> dec (P_meta S) mc = Some m -> m_version m = 3 ->
-  d_get S OBJ (f_lib S f) = None ->
   NoDup (some_ids (map g_id (guides_of S (f_info S f)))) ->
   default_first (f_layers S f) ->
   spec_read S t = Some f.
 Proof.
-  intros t f mc m H Hm1 Hm2 Hv Hobj HND Hdf.
+  intros t f mc m H Hm1 Hm2 Hv HND Hdf.
   destruct (load_elim t f H) as (mc' & m' & olib & il & og & ok & ls & E1 & E2 & E3 & E4 & E5 & E6 & E7 & E8 &
                                  F1 & F2 & F3 & F4 & F5).
   rewrite Hm1 in E1. inversion E1; subst mc'. rewrite Hm2 in E2. inversion E2; subst m'.
@@ -1177,41 +1281,47 @@ Proof.
   change (negb (3 =? 3)) with false. cbv iota.
   rewrite (load_opt_spec _ _ _ _ (d_empty S) E3). cbn [obind]. change (dflt_opt (d_empty S) olib) with (lib0_of olib).
   (* font info and object libs *)
+  assert (Hdd : forall l, remove_key S OBJ (d_del S OBJ l) = d_del S OBJ l).
+  { intros l. apply remove_key_absent. rewrite (get_del S OK), str_eqb_refl. reflexivity. }
   assert (HI : exists si gl,
              spec_read_opt S (P_info S) (t_info S t) (irest_dflt S, None) = Some si /\
              match d_get S SPEC_OBJ (lib0_of olib) with
              | None => Some (option_map (map (bare S)) (snd si), lib0_of olib)
-             | Some v => obind (as_dict S v) (fun ol =>
-                         match snd si with
+             | Some v => match snd si with
                          | None => Some (None, d_del S SPEC_OBJ (lib0_of olib))
-                         | Some gs => option_map (fun gs' => (Some gs', d_del S SPEC_OBJ (lib0_of olib)))
-                                                 (spec_attach S gs ol)
-                         end)
+                         | Some gs => obind (as_dict S v) (fun ol =>
+                                      option_map (fun gs' => (Some gs', d_del S SPEC_OBJ (lib0_of olib)))
+                                                 (spec_attach S gs ol))
+                         end
              end = Some gl /\
-             il = ({| i_rest := fst si; i_guides := fst gl |}, snd gl)).
+             fst il = {| i_rest := fst si; i_guides := fst gl |} /\ remove_key S OBJ (snd il) = snd gl).
   { change SPEC_OBJ with OBJ. destruct (t_info S t) as [c|].
     - unfold load_fontinfo in E4. change (3 =? 3) with true in E4. cbv iota in E4. simpl.
       destruct (dec (P_info S) c) as [si|]; [|discriminate].
       destruct (info_ok S _); [|discriminate].
       destruct (load_object_libs S (snd si) (lib0_of olib)) as [r| |] eqn:Er; simpl in E4; try discriminate.
-      inversion E4; subst il. exists si. unfold load_object_libs in Er.
-      destruct (d_get S OBJ (lib0_of olib)) as [v|].
+      inversion E4; subst il. exists si. unfold load_object_libs in Er. cbn [fst snd].
+      destruct (d_get S OBJ (lib0_of olib)) as [v|] eqn:Eg.
       + destruct (as_dict S v) as [ol|]; [|discriminate]. cbn [obind].
         destruct (snd si) as [gs|] eqn:Es.
         * destruct (attach_libs S gs ol) as [gs'| |] eqn:Ea; simpl in Er; try discriminate.
           inversion Er; subst r. rewrite (attach_spec gs ol gs'); [|  |exact Ea].
-          -- simpl. eexists. split; [reflexivity|]. split; reflexivity.
+          -- simpl. eexists. split; [reflexivity|]. split; [reflexivity|]. split; [reflexivity|apply Hdd].
           -- rewrite <- (attach_ids _ _ _ Ea). rewrite G1 in HND. exact HND.
-        * inversion Er; subst r. eexists. split; [reflexivity|]. split; reflexivity.
-      + inversion Er; subst r. eexists. split; [reflexivity|]. split; reflexivity.
-    - inversion E4; subst il. exists (irest_dflt S, None). simpl.
-      rewrite G2 in Hobj. simpl in Hobj. rewrite Hobj.
-      eexists. split; [reflexivity|]. split; reflexivity. }
-  destruct HI as (si & gl & I1 & I2 & I3). rewrite I1. cbn [obind]. rewrite I2. cbn [obind].
+        * inversion Er; subst r. eexists. split; [reflexivity|]. split; [reflexivity|]. split; [reflexivity|apply Hdd].
+      + inversion Er; subst r. eexists. split; [reflexivity|]. split; [reflexivity|]. split; [reflexivity|].
+        simpl. apply remove_key_absent. exact Eg.
+    - inversion E4; subst il. exists (irest_dflt S, None). cbn [fst snd spec_read_opt].
+      destruct (d_get S OBJ (lib0_of olib)) as [v|] eqn:Eg.
+      + eexists. split; [reflexivity|]. split; [reflexivity|]. split; [reflexivity|].
+        simpl. unfold remove_key, d_mem. rewrite Eg. reflexivity.
+      + eexists. split; [reflexivity|]. split; [reflexivity|]. split; [reflexivity|].
+        simpl. apply remove_key_absent. exact Eg. }
+  destruct HI as (si & gl & I1 & I2 & I3 & I4). rewrite I1. cbn [obind]. rewrite I2. cbn [obind].
   rewrite (load_opt_spec _ _ _ _ (groups_dflt S) E5). cbn [obind].
   rewrite (load_opt_spec _ _ _ _ (kerning_dflt S) E7). cbn [obind].
   rewrite L1. cbn [obind]. rewrite L2. cbn [obind]. rewrite L3. cbn [obind]. rewrite L4. cbn [obind].
-  f_equal. destruct f as [fm fi fl fg fk ff fls fd fim]. simpl in *. subst. simpl.
+  f_equal. destruct f as [fm fi fl fg fk ff fls fd fim]. simpl in *. subst. rewrite I3, I4.
   destruct m as [mcr mv mmi]. simpl in *. subst mv. reflexivity.
 Qed.
 
@@ -1466,7 +1576,8 @@ Lemma load_layer_default : forall (t : tree) e (l : lay),
 Proof.
   intros t e l H. unfold load_layer in H.
   destruct (alookup (snd e) (t_dirs S t)) as [d|]; [|discriminate].
-  destruct (ld_contents S d) as [cc|]; [|discriminate]. destruct (dec (P_contents S) cc); [|discriminate].
+  destruct (ld_contents S d) as [cc|]; [|discriminate]. destruct (dec (P_contents S) cc) as [cl|]; [|discriminate].
+  destruct (nodupb (map snd cl)); cbn [negb] in H; [|discriminate].
   bind_inv H. inversion H; subst l; clear H. simpl. split; [reflexivity|].
   intros d' Hd' Hn. inversion Hd'; subst d'. rewrite Hn in E0. simpl in E0. inversion E0; subst. auto.
 Qed.
@@ -1491,17 +1602,20 @@ Proof.
   split. { intros Hn. rewrite Hn in E4. inversion E4; subst il. exact G1. }
   split.
   { intros Hn. rewrite Hn in E3. simpl in E3. inversion E3; subst olib. simpl in E4. rewrite G2.
-    destruct (t_info S t) as [c|]; [|inversion E4; reflexivity].
-    unfold load_fontinfo in E4. change (3 =? 3) with true in E4. cbv iota in E4.
-    destruct (dec (P_info S) c) as [si|]; [|discriminate]. destruct (info_ok S _); [|discriminate].
-    unfold load_object_libs in E4. rewrite (get_empty S OK) in E4. simpl in E4. inversion E4; reflexivity. }
+    assert (Hs : snd il = d_empty S).
+    { destruct (t_info S t) as [c|]; [|inversion E4; reflexivity].
+      unfold load_fontinfo in E4. change (3 =? 3) with true in E4. cbv iota in E4.
+      destruct (dec (P_info S) c) as [si|]; [|discriminate]. destruct (info_ok S _); [|discriminate].
+      unfold load_object_libs in E4. rewrite (get_empty S OK) in E4. simpl in E4. inversion E4; reflexivity. }
+    rewrite Hs. apply remove_key_absent. apply (get_empty S OK). }
   split. { intros Hn. rewrite Hn in E5. inversion E5; subst og. exact G3. }
   split. { intros Hn. rewrite Hn in E7. inversion E7; subst ok. exact G4. }
   split. { intros Hn. rewrite Hn in G5. exact G5. }
   split. { intros Hn. rewrite F3, Hn. reflexivity. }
   split. { intros Hn. rewrite F4, Hn. reflexivity. }
   intros l d Hl Hd Hi. rewrite F2 in Hl. unfold load_layers in E8.
-  bind_inv E8. destruct (find_idx (is_default_dir S) a0); [|discriminate]. inversion E8 as [Hls]. rewrite <- Hls in Hl.
+  bind_inv E8. destruct (lc_precheck [] [] a); [discriminate|]. bind_inv E8.
+  destruct (find_idx (is_default_dir S) a0); [|discriminate]. inversion E8 as [Hls]. rewrite <- Hls in Hl.
   apply in_move_to_front in Hl. apply mapM_Forall2 in E0. apply Forall2_flip in E0.
   destruct (Forall2_in_l _ _ _ _ E0 Hl) as [e [_ He]]. cbv beta in He.
   destruct (load_layer_default t e l He) as [Hdir Hdef]. rewrite Hdir in Hd. eapply Hdef; eauto.
@@ -1629,13 +1743,14 @@ Proof.
 Qed.
 
 Lemma load_layer_props : forall (t : tree) e (l : lay),
-  load_layer S t e = Ok l -> disk_wf S t ->
+  load_layer S t e = Ok l ->
   l_name l = fst e /\ l_dir l = snd e /\ layer_ok S l.
 Proof.
-  intros t e l H [_ Hdisk]. unfold load_layer in H.
+  intros t e l H. unfold load_layer in H.
   destruct (alookup (snd e) (t_dirs S t)) as [d|] eqn:Ed; [|discriminate].
   destruct (ld_contents S d) as [cc|] eqn:Ec; [|discriminate].
   destruct (dec (P_contents S) cc) as [cl|] eqn:Ecl; [|discriminate].
+  destruct (nodupb (map snd cl)) eqn:End; cbn [negb] in H; [|discriminate]. apply nodupb_iff in End.
   bind_inv H. inversion H; subst l; clear H. simpl. split; [reflexivity|]. split; [reflexivity|].
   apply mapM_Forall2 in E.
   assert (Hfst : map fst a = cl).
@@ -1656,7 +1771,7 @@ Proof.
   split.
   { replace (map (fun e0 : str * str * T_glyph S => snd (fst e0)) a) with (map snd (map fst a))
       by (rewrite map_map; reflexivity).
-    rewrite Hfst. eapply Hdisk; eauto. apply alookup_some_in. exact Ed. }
+    rewrite Hfst. exact End. }
   apply Forall_forall. intros g Hg. apply Forall2_flip in E.
   destruct (Forall2_in_l _ _ _ _ E Hg) as [x [_ Hx]]. cbv beta in Hx. unfold load_glyph in Hx.
   destruct (alookup (snd x) (ld_glifs S d)) as [gc|]; [|discriminate].
@@ -1666,22 +1781,26 @@ Proof.
 Qed.
 
 Lemma load_layers_props : forall (t : tree) ls,
-  load_layers S t 3 = Ok ls -> disk_wf S t -> layers_ok S ls.
+  load_layers S t 3 = Ok ls -> layers_ok S ls.
 Proof.
-  intros t ls H Hdisk. pose proof Hdisk as [Hlc _]. unfold load_layers in H.
+  intros t ls H. unfold load_layers in H.
   destruct (t_lcontents S t) as [lcc|] eqn:E1; [|discriminate].
   destruct (dec (P_lc S) lcc) as [lc|] eqn:E2; [|discriminate]. cbn [bind] in H.
+  destruct (lc_precheck [] [] lc) eqn:Epre; [discriminate|].
+  apply lc_precheck_none in Epre. destruct Epre as [[NDn _] [[NDd _] Hres]].
   destruct (mapM (load_layer S t) lc) as [ls0| |] eqn:Em; simpl in H; try discriminate.
   destruct (find_idx (is_default_dir S) ls0) as [i|] eqn:Ei; [|discriminate]. inversion H; subst ls; clear H.
   apply mapM_Forall2 in Em.
   assert (Hall : Forall2 (fun e (l : lay) => l_name l = fst e /\ l_dir l = snd e /\ layer_ok S l) lc ls0).
-  { eapply Forall2_impl_in; [|exact Em]. intros e l _ _ He. cbv beta in He. apply (load_layer_props t e l He Hdisk). }
+  { eapply Forall2_impl_in; [|exact Em]. intros e l _ _ He. cbv beta in He. apply (load_layer_props t e l He). }
   assert (Hdirs : map l_dir ls0 = map snd lc).
   { apply Forall2_map_fst_eq. eapply Forall2_impl_in; [|exact Hall]. intros a b _ _ (_ & H & _). exact H. }
   assert (Hlcof : lc_of S ls0 = lc).
   { clear -Hall. induction Hall as [|e l lc ls0 (H1 & H2 & _) F IH]; [reflexivity|].
     unfold lc_of in *. simpl. rewrite IH, H1, H2. destruct e; reflexivity. }
-  assert (ND : NoDup (map l_dir ls0)) by (rewrite Hdirs; eapply Hlc; eauto).
+  assert (ND : NoDup (map l_dir ls0)) by (rewrite Hdirs; exact NDd).
+  assert (Hnames : map l_name ls0 = map fst lc).
+  { apply Forall2_map_fst_eq. eapply Forall2_impl_in; [|exact Hall]. intros a b _ _ (H & _). exact H. }
   destruct (find_idx_nth _ _ _ Ei) as [d [Hd Hpd]].
   unfold move_to_front. rewrite Hd.
   destruct (NoDup_remove_nth l_dir i ls0 d ND Hd) as [ND' Hothers].
@@ -1691,20 +1810,24 @@ Proof.
     destruct (Forall2_in_l _ _ _ _ Hall Hl) as [e [_ (_ & _ & H)]]. exact H. }
   assert (Hin : forall x, In x (d :: remove_nth i ls0) -> In x ls0).
   { intros x [<-|Hx]; [eapply nth_error_In; eauto|eapply in_remove_nth; eauto]. }
-  split; [split; [exact Hdg|]|split; [exact ND'|split]].
+  assert (NDn0 : NoDup (map l_name ls0)) by (rewrite Hnames; exact NDn).
+  destruct (NoDup_remove_nth l_name i ls0 d NDn0 Hd) as [NDn' _].
+  split; [split; [exact Hdg|]|split; [exact ND'|split; [|split; [|split; [exact NDn'|]]]]].
   - apply Forall_forall. intros x Hx. rewrite <- Hdg. apply Hothers. exact Hx.
   - apply Forall_forall. intros x Hx. rewrite Forall_forall in Hok0. apply Hok0. apply Hin. exact Hx.
   - apply (lc_wf S OK). unfold lc_of. rewrite Forall_map. apply Forall_forall. intros x Hx.
     apply (cl_lc S CL) in E2. apply (lc_wf S OK) in E2. rewrite <- Hlcof in E2. unfold lc_of in E2.
     rewrite Forall_map in E2. rewrite Forall_forall in E2. apply E2. apply Hin. exact Hx.
+  - apply Forall_forall. intros x Hx. apply Hin in Hx. apply Forall2_flip in Hall.
+    destruct (Forall2_in_l _ _ _ _ Hall Hx) as [e [He (A & B & _)]]. rewrite Forall_forall in Hres.
+    rewrite A, B. apply (Hres e He).
 Qed.
 
 Theorem load_yields_valid : forall (t : tree) (f : font) mc m,
   load S t = Ok f -> t_meta S t = Some mc -> dec (P_meta S) mc = Some m -> m_version m = 3 ->
-  disk_wf S t -> ~ orphan_object_libs S t ->
   font_valid S f.
 Proof.
-  intros t f mc m H Hm1 Hm2 Hv Hdisk Horph.
+  intros t f mc m H Hm1 Hm2 Hv.
   destruct (load_elim t f H) as (mc' & m' & olib & il & og & ok & ls & E1 & E2 & E3 & E4 & E5 & E6 & E7 & E8 &
                                  F1 & F2 & F3 & F4 & F5).
   rewrite Hm1 in E1. inversion E1; subst mc'. rewrite Hm2 in E2. inversion E2; subst m'.
@@ -1717,7 +1840,7 @@ Proof.
     - inversion E3; subst olib. apply wf_dict_empty. }
   (* font info and lib *)
   assert (HI : info_ok S (fst il) = true /\ wf (P_info S) (stripped S (fst il)) /\
-               Forall (guide_ok S) (guides_of S (fst il)) /\ wf_dict S (snd il) /\ d_get S OBJ (snd il) = None).
+               Forall (guide_ok S) (guides_of S (fst il)) /\ wf_dict S (snd il)).
   { destruct (t_info S t) as [c|] eqn:Ei.
     - unfold load_fontinfo in E4. change (3 =? 3) with true in E4. cbv iota in E4.
       destruct (dec (P_info S) c) as [si|] eqn:Es; [|discriminate].
@@ -1731,19 +1854,15 @@ Proof.
       split. { rewrite <- Eok. apply (info_ok_stripped S OK). rewrite Hstr, stripped_bare. apply (peq_refl _ (ok_info S OK)). }
       split. { rewrite Hstr. exact Hwsi. }
       split. { unfold guides_of. simpl. exact P4. }
-      split; assumption.
+      exact P2.
     - inversion E4; subst il. simpl. split; [apply (info_dflt_ok S OK)|]. split; [apply (info_dflt_wf S OK)|].
-      split; [constructor|]. split; [exact Hwl0|].
-      destruct (d_get S OBJ (lib0_of olib)) eqn:Eo; [|reflexivity]. exfalso. apply Horph. split; [exact Ei|].
-      unfold load_opt in E3. destruct (t_lib S t) as [c|].
-      + destruct (dec (P_lib S) c) as [d|] eqn:Ed; [|discriminate]. inversion E3; subst olib. simpl in Eo.
-        exists c, d. split; [reflexivity|]. split; [exact Ed|]. congruence.
-      + inversion E3; subst olib. simpl in Eo. rewrite (get_empty S OK) in Eo. discriminate. }
-  destruct HI as (I1 & I2 & I3 & I4 & I5).
+      split; [constructor|exact Hwl0]. }
+  destruct HI as (I1 & I2 & I3 & I4).
   unfold font_valid. rewrite F1, G1, G2, G3, G4, F2.
   split; [reflexivity|]. split. { rewrite meta_to_write_v3 by reflexivity. apply (meta_wf_norad S CL). }
   split; [exact I1|]. split; [exact I2|]. split; [exact I3|].
-  split; [apply (info_ok_nodup S CL); exact I1|]. split; [exact I4|]. split; [exact I5|].
+  split; [apply (info_ok_nodup S CL); exact I1|]. split; [apply wf_dict_remove_key; exact I4|].
+  split; [apply get_remove_key|].
   split.
   { destruct og as [g|]; simpl; [apply E6; reflexivity|apply (groups_dflt_wf S OK)]. }
   split.
@@ -1757,6 +1876,16 @@ Proof.
       apply (cl_kerning S CL _ _ Ek).
     - inversion E7; subst ok. simpl. apply (kerning_dflt_wf S OK). }
   eapply load_layers_props; eauto.
+Qed.
+
+(** C04 at full strength: whatever format-3 tree norad loads, the loaded font is saved and loaded
+    again as an equal font *)
+Theorem fixed_point_full : forall o (t : tree) (f : font) mc m,
+  load S t = Ok f -> t_meta S t = Some mc -> dec (P_meta S) mc = Some m -> m_version m = 3 ->
+  exists t', save S o f = Ok t' /\ exists f', load S t' = Ok f' /\ font_equiv S f f'.
+Proof.
+  intros o t f mc m H Hm1 Hm2 Hv.
+  destruct (save_load_roundtrip o f (load_yields_valid t f mc m H Hm1 Hm2 Hv)) as (t' & H1 & _ & H2). eauto.
 Qed.
 
 End Closed.
